@@ -49,6 +49,115 @@ def _gen_harness(ob, core_wrapper):
 
 
 def run_obligation(ob):
+    if ob.get("engine", "crosshair") == "zsym":
+        return run_obligation_zsym(ob)
+    return run_obligation_crosshair(ob)
+
+
+def _new_res(ob):
+    return {
+        "name": ob["name"], "paths": 0, "aborted_paths": 0, "covers": collections.Counter(), "sigs": set(), "nontrivial_sigs": set(),
+        "samples": [], "cex": None, "known_seen": {}, "harness_error": None, "fail_paths": 0,
+    }
+
+
+def _end_of_path(res, ctx, known, model_fn):
+    """Bookkeeping shared by both engines; returns True when the oracle held (up to listed known findings)."""
+    res["paths"] += 1
+    if ctx.aborted:
+        res["aborted_paths"] += 1
+    for c in ctx.covers:
+        res["covers"][c] += 1
+    h = sig_hash(ctx.sig) if ctx.sig is not None else None
+    new_sig = h is not None and h not in res["sigs"]
+    if h is not None:
+        res["sigs"].add(h)
+        if ctx.nontrivial:
+            res["nontrivial_sigs"].add(h)
+    residual = [f for f in ctx.fails if f not in known]
+    seen_known = [f for f in ctx.fails if f in known]
+    need_model = bool(residual) or any(f not in res["known_seen"] for f in seen_known)
+    want_sample = len(res["samples"]) < MAX_SAMPLES and new_sig and (ctx.nontrivial or not res["samples"])
+    if need_model or want_sample:
+        try:
+            m = model_fn()
+        except Exception:  # noqa: BLE001
+            m = None
+        if m is not None:
+            for f in seen_known:
+                res["known_seen"].setdefault(f, m)
+            if residual and res["cex"] is None:
+                res["cex"] = {"params": m, "fails": residual, "notes": ctx.notes}
+            if want_sample and not residual:
+                res["samples"].append({"params": m, "sig": h, "covers": sorted(ctx.covers), "notes": ctx.notes})
+    if residual:
+        res["fail_paths"] += 1
+    return not residual
+
+
+def _finish(res, ob, verdict, msgs, t_start, **extra):
+    res.update(
+        verdict=verdict, messages=msgs, wall_s=round(time.time() - t_start, 2), covers=dict(res["covers"]),
+        sigs=sorted(res["sigs"]), nontrivial_sigs=sorted(res["nontrivial_sigs"]), prop=ob["prop"], harness=ob["harness"],
+        cube=ob.get("cube", {}), params=ob["params"], engine=ob.get("engine", "crosshair"),
+    )
+    res.update(extra)
+    return res
+
+
+def run_obligation_zsym(ob):
+    t_start = time.time()
+    chconf.force_repo_first()
+    from . import zsym
+
+    mod = importlib.import_module("props." + ob["prop"].lower())
+    core = getattr(mod, ob["harness"])
+    cube = ob.get("cube", {})
+    known = set(ob.get("known_tags", []))
+    res = _new_res(ob)
+    eng = zsym.Engine(ob["params"], pre=ob.get("pre"), timeout=float(ob.get("timeout", 60)))
+
+    def fn(symvals):
+        ctx = Ctx(symbolic=True, engine="zsym")
+        p = dict(cube)
+        p.update(symvals)
+        try:
+            core(p, ctx)
+        except Exception as e:  # noqa: BLE001
+            import traceback
+
+            ctx.fail("HARNESS-EXC:%s" % type(e).__name__)
+            res["harness_error"] = traceback.format_exc()[-1500:]
+        return _end_of_path(res, ctx, known, eng.current_model)
+
+    msgs = []
+    try:
+        status = eng.explore(fn)
+    except Exception:  # noqa: BLE001
+        import traceback
+
+        res["harness_error"] = "engine: " + traceback.format_exc()[-1500:]
+        status = "error"
+    msgs.append("zsym: %s %s" % (status, getattr(eng, "last_error", "")))
+    if res["harness_error"] and (res["cex"] is None or any(f.startswith("HARNESS-EXC") for f in res["cex"]["fails"])):
+        verdict = "HARNESS_ERROR"
+    elif status == "nondeterministic":
+        verdict = "HARNESS_ERROR"
+        res["harness_error"] = "nondeterministic harness: " + getattr(eng, "last_error", "")
+    elif res["cex"] is not None:
+        verdict = "REFUTED"
+    elif status == "exhausted":
+        verdict = "CONFIRMED"
+    elif status == "pre_unsat":
+        verdict = "PRE_UNSAT"
+    else:
+        verdict = "UNKNOWN"
+    st = eng.stats
+    return _finish(res, ob, verdict, msgs, t_start, ch_paths=eng.paths, queries=st["queries"], solver_time_s=round(st["solver_time_s"], 3),
+                   smt_sat=st["sat"], smt_unsat=st["unsat"], smt_unknown=st["unknown"], decisions=st["decisions"], concretizations=st["concretizations"])
+
+
+def run_obligation_crosshair(ob):
     t_start = time.time()
     chconf.force_repo_first()
     chconf.configure()
